@@ -45,6 +45,13 @@ def algo_calls(node, stages_only=False):
         m = re.search(r"compression::algorithms::(\w+)::(\w+)$", c.get("fn") or "")
         if m:
             out.append((m.group(1), m.group(2), c["ln"]))
+    # an algorithm function handed over as a value (`run(data, size, algorithms::zlib::decompress)`) is that algorithm too
+    for c in hirq.walk(node):
+        if c.get("k") == "path" and "def" in (c.get("res") or {}) and str(c["res"].get("dk", "")).startswith("Fn"):
+            m = re.search(r"compression::algorithms::(\w+)::(\w+)$", c["res"]["def"])
+            if m:
+                out.append((m.group(1), m.group(2), c.get("ln") or 0))
+    out.sort(key=lambda t: t[2])
     return out
 
 
@@ -329,37 +336,64 @@ def run(ctx):
         if not ifs:
             ctx.bad(R_exp, "compress|no-guard", comp.where, "no size comparison guards the choice between raw and compressed", "the stored form can be longer than the input")
         for n in ifs:
-            disj = []
+            # the guard is a boolean formula over one size comparison (stored vs original) and other atoms (e.g. "the decoder would
+            # accept it"): evaluate it for stored <,=,> original and every valuation of the other atoms; the arm that is not a plain
+            # copy may only be reached when stored < original, the method byte counted
+            size_atoms, free_atoms = [], []
 
-            def split(c):
+            def collect(c):
                 c = hirq.strip(c)
-                if c.get("k") == "bin" and c["op"] == "||":
-                    split(c["l"])
-                    split(c["r"])
+                if c.get("k") == "bin" and c["op"] in ("||", "&&"):
+                    collect(c["l"])
+                    collect(c["r"])
+                elif c.get("k") == "un" and c.get("op") == "Not":
+                    collect(c["e"])
+                elif len(cmpeval.atoms(c)) == 2 and any(".len()" in a for a in cmpeval.atoms(c)) and any("compress" in a for a in cmpeval.atoms(c)):
+                    size_atoms.append(c)
                 else:
-                    disj.append(c)
-            split(n["c"])
-            size_d = [d for d in disj if len(cmpeval.atoms(d)) == 2 and any(".len()" in a for a in cmpeval.atoms(d))]
-            if not size_d:
+                    free_atoms.append(hirq.render(c))
+            collect(n["c"])
+            if not size_atoms:
                 ctx.bad(R_exp, "compress|guard-shape", "%s:%d" % (comp.file, n["ln"]), "guard `%s` has no two-sided size comparison" % hirq.render(n["c"]), "cannot establish the strict-shrink rule")
                 continue
-            d = size_d[0]
+            d = size_atoms[0]
             ats = cmpeval.atoms(d)
             stored = next((a for a in ats if "compress" in a), None)
             orig = next((a for a in ats if a != stored), None)
-            tt = cmpeval.truth_table(d, stored, orig)
+            tts = {hirq.render(x): cmpeval.truth_table(x, next((a for a in cmpeval.atoms(x) if "compress" in a), None), next((a for a in cmpeval.atoms(x) if "compress" not in a), None)) for x in size_atoms}
+            tt = tts[hirq.render(d)]
+
+            def ev(c, rel, val):
+                c = hirq.strip(c)
+                if c.get("k") == "bin" and c["op"] == "||":
+                    return ev(c["l"], rel, val) or ev(c["r"], rel, val)
+                if c.get("k") == "bin" and c["op"] == "&&":
+                    return ev(c["l"], rel, val) and ev(c["r"], rel, val)
+                if c.get("k") == "un" and c.get("op") == "Not":
+                    return not ev(c["e"], rel, val)
+                r_ = hirq.render(c)
+                return tts[r_][rel] if r_ in tts else val[r_]
             then_raw = "to_vec" in hirq.render(n["then"]) and "push" not in hirq.render(n["then"])
             else_raw = n.get("else") is not None and "to_vec" in hirq.render(n["else"]) and "push" not in hirq.render(n["else"])
-            has_byte = bool(re.search(r"\(1 \+ |\+ 1\)", stored or ""))
+            has_byte = all(bool(re.search(r"\(1 \+ |\+ 1\)", next((a for a in cmpeval.atoms(x) if "compress" in a), ""))) for x in size_atoms)
+            frees = sorted(set(free_atoms))
+            wrong, reach = [], False
+            for rel in ("lt", "eq", "gt"):
+                for bits in range(1 << len(frees)):
+                    val = {f_: bool(bits >> i & 1) for i, f_ in enumerate(frees)}
+                    g = ev(n["c"], rel, val)
+                    raw = then_raw if g else else_raw
+                    if not raw:
+                        reach = reach or rel == "lt"
+                        if rel != "lt":
+                            wrong.append((rel, val))
             key = "compress|store-raw-guard"
             where = "%s:%d" % (comp.file, n["ln"])
-            if then_raw and tt == {"lt": False, "eq": True, "gt": True} and has_byte:
-                ctx.ok(R_exp, {"guard": hirq.render(d), "table": tt, "raw_arm": "then"})
-            elif else_raw and tt == {"lt": True, "eq": False, "gt": False} and has_byte:
-                ctx.ok(R_exp, {"guard": hirq.render(d), "table": tt, "raw_arm": "else"})
+            if (then_raw or else_raw) and not wrong and reach and has_byte:
+                ctx.ok(R_exp, {"guard": hirq.render(n["c"])[:160], "size_comparison": hirq.render(d), "table": tt, "raw_arm": "then" if then_raw else "else", "other_atoms": len(frees)})
             else:
-                ctx.bad(R_exp, key, where, "guard `%s` has table {lt:%s, eq:%s, gt:%s} over (stored=%s, original=%s); raw arm: %s; method byte counted: %s" % (
-                    hirq.render(d), tt["lt"], tt["eq"], tt["gt"], stored, orig, "then" if then_raw else "else" if else_raw else "none", has_byte),
+                ctx.bad(R_exp, key, where, "guard `%s` has table {lt:%s, eq:%s, gt:%s} over (stored=%s, original=%s); raw arm: %s; method byte counted: %s; prefixed form reached with stored %s original" % (
+                    hirq.render(d), tt["lt"], tt["eq"], tt["gt"], stored, orig, "then" if then_raw else "else" if else_raw else "none", has_byte, sorted({w[0] for w in wrong}) or ("never <" if not reach else "<")),
                         "a block that does not shrink is stored compressed: the stored form is as long as or longer than the input, and readers that test `stored < original` misread it as raw")
         # every return is either raw copy or the guarded prefixed form
         rets = [hirq.render(c) for c in hirq.walk(body) if c.get("k") == "call" and (c.get("fn") or "").endswith("Result::Ok")]
